@@ -795,6 +795,7 @@ theorem tableHas_tableWrite (σ : State) (c : Conn) (r : Req) (c' : Conn) (a : S
   | ident => simp [tableWrite, tableHas_resetConn, ends]
   | disconnect => simp [tableWrite, tableHas_resetConn, ends]
   | rw w m p e => simp [tableWrite, ends]
+  | malformed a s => simp [tableWrite, ends]
 
 theorem tableHas_write_other (σ : State) (c c' : Conn) (r : Req) (s : Scope) (h : c' ≠ c) :
     tableHas (tableWrite σ c r) c' s = tableHas σ c' s := by
@@ -916,6 +917,7 @@ theorem silentInv_stepH (cfg : Cfg) (σ σ' : State) (c : Conn) (hI : SilentInv 
       | ident => simp [afterTable, activating] at h
       | disconnect => exact absurd rfl hr
       | rw w m p e => simp [afterTable, activating] at h
+      | malformed a s => simp [afterTable, activating] at h
     · intro r' h; rw [heq]; left
       cases r with
       | activate s => simp only [afterTable] at h; rw [ending_afterSnap s _ r' h]; rfl
@@ -923,6 +925,7 @@ theorem silentInv_stepH (cfg : Cfg) (σ σ' : State) (c : Conn) (hI : SilentInv 
       | ident => simpa [afterTable, ending, replyEnds] using h
       | disconnect => exact absurd rfl hr
       | rw w m p e => simpa [afterTable, ending, replyEnds] using h
+      | malformed a s => simpa [afterTable, ending, replyEnds] using h
     · cases r with
       | activate s => exact covInv_afterSnap cfg s _ (goodMod_scopeMods cfg s)
       | _ => simp [afterTable, covInv]
